@@ -12,6 +12,18 @@ use crate::value::{
     Property, PropertyKey,
 };
 use crate::value::{to_int32, to_uint32};
+use core::cmp::Ordering;
+
+/// Order of two operands of `<`, `<=`, `>`, `>=`: two strings compare by
+/// UTF-16 code units, anything else numerically. `None` when a NaN is
+/// involved (every relational operator is then false).
+fn relational_order(left: &JsValue, right: &JsValue) -> Option<Ordering> {
+    if let (JsValue::String(l), JsValue::String(r)) = (left, right) {
+        return Some(l.as_str().encode_utf16().cmp(r.as_str().encode_utf16()));
+    }
+    left.to_number().partial_cmp(&right.to_number())
+}
+
 
 use super::Interpreter;
 
@@ -2174,30 +2186,26 @@ impl BytecodeVM {
             }
 
             Op::Lt { dst, left, right } => {
-                let left_val = self.get_reg(left).to_number();
-                let right_val = self.get_reg(right).to_number();
-                self.set_reg(dst, JsValue::Boolean(left_val < right_val));
+                let ordering = relational_order(self.get_reg(left), self.get_reg(right));
+                self.set_reg(dst, JsValue::Boolean(matches!(ordering, Some(Ordering::Less))));
                 Ok(OpResult::Continue)
             }
 
             Op::LtEq { dst, left, right } => {
-                let left_val = self.get_reg(left).to_number();
-                let right_val = self.get_reg(right).to_number();
-                self.set_reg(dst, JsValue::Boolean(left_val <= right_val));
+                let ordering = relational_order(self.get_reg(left), self.get_reg(right));
+                self.set_reg(dst, JsValue::Boolean(matches!(ordering, Some(Ordering::Less | Ordering::Equal))));
                 Ok(OpResult::Continue)
             }
 
             Op::Gt { dst, left, right } => {
-                let left_val = self.get_reg(left).to_number();
-                let right_val = self.get_reg(right).to_number();
-                self.set_reg(dst, JsValue::Boolean(left_val > right_val));
+                let ordering = relational_order(self.get_reg(left), self.get_reg(right));
+                self.set_reg(dst, JsValue::Boolean(matches!(ordering, Some(Ordering::Greater))));
                 Ok(OpResult::Continue)
             }
 
             Op::GtEq { dst, left, right } => {
-                let left_val = self.get_reg(left).to_number();
-                let right_val = self.get_reg(right).to_number();
-                self.set_reg(dst, JsValue::Boolean(left_val >= right_val));
+                let ordering = relational_order(self.get_reg(left), self.get_reg(right));
+                self.set_reg(dst, JsValue::Boolean(matches!(ordering, Some(Ordering::Greater | Ordering::Equal))));
                 Ok(OpResult::Continue)
             }
 
